@@ -166,7 +166,7 @@ def fam_buffers(depth):
 
 def fam_buffer_commands():
     pre = [op('buffer', n=[8, 1], cm='none'), op('buffer_noalloc', n=[8, 2])]
-    cmds = [op('b_alloc', h=2, cm='none'), op('b_alloc', h=2, cm='list'), op('b_alloc', h=2, cm='func'),
+    cmds = [op('b_alloc', h=2, n=[8, 2], cm='none'), op('b_alloc', h=2, n=[8, 2], cm='list'), op('b_alloc', h=2, n=[8, 2], cm='func'),
             op('b_zero', h=1, cm='func'), op('b_close', h=1, cm='none'), op('b_close', h=1, cm='list'), op('b_query', h=1),
             op('b_set', h=1, a=[ti(0), tf(4), ti(3), ti(1)]), op('b_setn', h=1, a=[ti(0), tl(tf(1), tf(2)), ti(4), tf(4)]),
             op('b_fill', h=1, a=[ti(0), ti(4), tf(4)]),
@@ -266,9 +266,10 @@ def random_history(rnd, n):
             kinds.append('group')
             return op('group', tk=tk, t=tgt or 0, act=rnd.choice(ACTIONS), n=[rnd.randint(0, 1)])
         if x < 0.28:
+            a = args()
             kinds.append('synth')
             return op(rnd.choice(['synth', 'synth', 'paused']), **{'def': rnd.choice(['default', 'x'])}, tk=tk, t=tgt or 0,
-                      act=rnd.choice(ACTIONS), a=args())
+                      act=rnd.choice(ACTIONS), a=a)
         if x < 0.33:
             kinds.append(rnd.choice(['cbus', 'abus']))
             return op(kinds[-1], n=[rnd.randint(1, 2)])
@@ -287,8 +288,19 @@ def random_history(rnd, n):
                 if not g:
                     return op('trace', h=node)
                 c['h'] = g
+            elif c['op'] == 's_get':
+                sy = pick('synth')
+                if not sy:
+                    return op('trace', h=node)
+                c['h'] = sy
             elif 'h' in c:
                 c['h'] = node
+            if c['op'] in ('move_to_head', 'move_to_tail') and c.get('tk') == 'obj':
+                g = pick('group')
+                if not g:
+                    c['tk'], c['t'] = 'none', 0
+                else:
+                    c['t'] = g
             if c['op'] == 'reorder':
                 c['a'] = [tobj(node)]
                 c['t'] = pick('group', 'synth')
@@ -298,9 +310,11 @@ def random_history(rnd, n):
         b = pick('buf', 'bufs')
         if x < 0.85 and b:
             if kinds[b - 1] == 'bufs' or rnd.random() < 0.5:
-                if kinds[b - 1] == 'bufs' or rnd.random() < 0.3:
-                    kinds[b - 1] = 'dead'           # 'buf' handles that stay may be freed a second time
-                return op('b_free', h=b, cm=rnd.choice(['none', 'func']))
+                # freed objects are not used again, except for an immediate second free()
+                again = kinds[b - 1] == 'buf' and rnd.random() < 0.4
+                kinds[b - 1] = 'dead'
+                f = op('b_free', h=b, cm=rnd.choice(['none', 'func']))
+                return [f, op('b_free', h=b, cm='none')] if again else f
             return rnd.choice([op('b_zero', h=b, cm='none'), op('b_set', h=b, a=[ti(0), tf(4)]), op('b_query', h=b),
                                op('b_fill', h=b, a=[ti(0), ti(4), tf(4)])])
         if x < 0.88:
@@ -311,20 +325,25 @@ def random_history(rnd, n):
         c = pick('cbus', 'abus')
         if c:
             if rnd.random() < 0.4:
-                return op('bus_free', h=c)
+                kinds[c - 1] = 'dead'
+                return [op('bus_free', h=c)] * rnd.choice([1, 1, 2])
             if kinds[c - 1] == 'cbus':
                 return rnd.choice([op('c_set', h=c, a=[tf(4)]), op('c_fill', h=c, a=[tf(8)], n=[1]), op('c_get', h=c)])
         return op('free_default_group')
 
     while len(h) < n:
         if rnd.random() < 0.15:
-            body = [one(True) for _ in range(rnd.randint(0, 4))]
+            body = []
+            for _ in range(rnd.randint(0, 4)):
+                o = one(True)
+                body += o if isinstance(o, list) else [o]
             h.append(op('bind', body=body, raise_at=rnd.choice([-1, -1, -1] + list(range(len(body) + 1)))))
             if h[-1]['raise_at'] >= 0:
                 # objects whose creating call was skipped do not exist: stop here (handles would be misaligned)
                 break
         else:
-            h.append(one(False))
+            o = one(False)
+            h += o if isinstance(o, list) else [o]
     return h
 
 
